@@ -395,6 +395,11 @@ class C12(SolverSuite):
                 ops.append({"a": aid, "op": "solve"})
             ops = G.sprinkle_evq(rng, ops, aid, actors[aid], prob=0.1)
             lists.append(ops)
+        if n_act >= 2 and rng.random() < 0.15:
+            # a parameter study: S1 is a second solver on S0's very Problem object
+            L1 = rng.randint(2, 30)
+            G.share_problem(rng, actors, "S0", "S1", max_iters=L1)
+            lists[1] = G.gen_single_ops(rng, "S1", rng.choice([0, rng.randint(0, L1)]), with_solve=rng.random() < 0.8, results_prob=0.3)
         u = rng.random()
         if u < 0.2:
             # user code often builds ONE SolverParameters object and hands it to several solvers
